@@ -263,7 +263,9 @@ AttrBinds(d, df, dp, rs, pl) ==
   \o (IF df THEN << <<"depfile", <<Var("out"), Lit(".d")>> >> >> ELSE <<>>)
   \o (IF dp = "" THEN <<>> ELSE << <<"deps", P(dp)>> >>)
   \o (IF rs THEN << <<"rspfile", <<Var("out"), Lit(".rsp")>> >>,
-                    <<"rspfile_content", <<Var("in"), Lit(" "), Var("flags")>> >> >> ELSE <<>>)
+                    \* (both forms of the implicit variables side by side: two inputs, two outputs)
+                    <<"rspfile_content", <<Var("in_newline"), Lit("|"), Var("in"), Lit(" "), Var("flags"),
+                                           Lit("|"), Var("out_newline"), Lit("|"), Var("out")>> >> >> ELSE <<>>)
   \o (IF pl = "" THEN <<>> ELSE << <<"pool", P(pl)>> >>)
 
 AttrFiles(d, df, dp, rs, pl, ov) ==
@@ -271,7 +273,7 @@ AttrFiles(d, df, dp, rs, pl, ov) ==
       << [k |-> "pool", name |-> "lnk", depth |-> 2],
          Bind("flags", P("-O2")),
          Rule("cc", AttrBinds(d, df, dp, rs, pl)),
-         Build(<<PP("a.o")>>, <<>>, "cc", <<PP("a.c"), PP("b.c")>>, <<>>, <<>>, <<>>,
+         Build(<<PP("a.o"), PP("a.lst")>>, <<>>, "cc", <<PP("a.c"), PP("b.c")>>, <<>>, <<>>, <<>>,
                (IF ov THEN << <<"command", <<Lit("own "), Var("flags")>> >>,
                               <<"flags", P("-O0")>> >> ELSE <<>>)),
          [k |-> "default", paths |-> <<PP("a.o")>>] >>)>>
